@@ -370,7 +370,37 @@ pub(super) fn apply_renaming(
     toplevels: toplevels
       .iter()
       .map(|toplevel| match toplevel {
-        Toplevel::Interface(i) => Toplevel::Interface(i.clone()),
+        Toplevel::Interface(i) => {
+          // Parameters of interface members are bindings like those of class members.
+          let mut renamed = i.clone();
+          renamed.members.members = i
+            .members
+            .members
+            .iter()
+            .map(|decl| {
+              let mut decl = decl.clone();
+              decl.parameters = samlang_ast::source::FunctionParameters {
+                location: decl.parameters.location,
+                start_associated_comments: decl.parameters.start_associated_comments,
+                ending_associated_comments: decl.parameters.ending_associated_comments,
+                parameters: Arc::new(
+                  decl
+                    .parameters
+                    .parameters
+                    .iter()
+                    .map(|AnnotatedId { name, type_, annotation }| AnnotatedId {
+                      name: mod_def_id(name, definition_and_uses, new_name),
+                      type_: *type_,
+                      annotation: annotation.clone(),
+                    })
+                    .collect(),
+                ),
+              };
+              decl
+            })
+            .collect();
+          Toplevel::Interface(renamed)
+        }
         Toplevel::Class(c) => Toplevel::Class(ClassDefinition {
           loc: c.loc,
           associated_comments: c.associated_comments,
